@@ -80,27 +80,28 @@ type wbuild struct {
 	g    genCfg
 	mode string
 
-	mu      sync.Mutex
-	U       *Universe // what is on disk of the active machine
-	M       *Machine
-	inv     int
-	events  []ExecEvent
-	running int
-	maxRun  int
-	ranBin  []string
-	curOpts InvOpts
-	dirInWay map[string]bool
+	mu         sync.Mutex
+	U          *Universe // what is on disk of the active machine
+	M          *Machine
+	inv        int
+	events     []ExecEvent
+	running    int
+	maxRun     int
+	ranBin     []string
+	curOpts    InvOpts
+	dirInWay   map[string]bool
 	diskBefore map[string]Listing
 	toggled    map[string]bool
 	force      []string
-	fs       *faultState
-	focus    string
-	load     string
+	long       bool
+	fs         *faultState
+	focus      string
+	load       string
 	// crash sweep: kill invocation number sweepInv at its sweepOp-th file-system operation
 	sweepInv, sweepOp int
 	opsPerInv         []int
-	lastMut     func(m2 *Machine) (string, OutSpec, string)
-	lastMutKind string
+	lastMut           func(m2 *Machine) (string, OutSpec, string)
+	lastMutKind       string
 }
 
 var runCounter int
